@@ -12,8 +12,10 @@ pub mod sinks;
 pub mod traces;
 pub mod util;
 
-pub fn selftest() -> Result<(), String> {
-    rng::selftest()?;
-    util::selftest()?;
+pub fn selftest(light: bool) -> Result<(), String> {
+    if !light {
+        rng::selftest()?;
+    }
+    util::selftest(light)?;
     Ok(())
 }
